@@ -95,6 +95,8 @@ type EffectDirective struct {
 
 type PropFile struct{ Prop, File, Re string }
 
+type MapOrderDirective struct{ Prop, File string }
+
 type ResetDirective struct {
 	Prop, Type, Reset string
 	Readers, Ignore   []string
@@ -112,6 +114,7 @@ type EnsuresAll struct {
 }
 
 type ContractFile struct {
+	MapOrders  []MapOrderDirective
 	Resets     []ResetDirective
 	ClauseAll  []ClauseAll
 	EnsuresAll []EnsuresAll
@@ -209,6 +212,14 @@ func processContractLines(cf *ContractFile, lines []string, lnos []int) error {
 				}
 			}
 			cf.Effects = append(cf.Effects, d)
+			cur = nil
+			continue
+		case strings.HasPrefix(t, "maporder "):
+			fs := strings.Fields(t)
+			if len(fs) != 3 {
+				return fmt.Errorf("line %d: maporder Cxx file.go", no)
+			}
+			cf.MapOrders = append(cf.MapOrders, MapOrderDirective{fs[1], fs[2]})
 			cur = nil
 			continue
 		case strings.HasPrefix(t, "resets "):
